@@ -15,7 +15,8 @@ EXPLANATION = (
     "table, for all paths of every cell at once; does not run any history. M-LOSS-IDLE: every path through "
     "connectionLost ends with state = IDLE, and no exception can leave it before that assignment - raises seen by the "
     "walk, cancel() of a handle that already fired, a method call on a None handle, errback() of a Deferred created "
-    "already fired (typestate facts computed over all contexts).")
+    "already fired (typestate facts computed over all contexts). "
+    " M-IDLE - the state is set to IDLE only in the loss context or on a refused CONNACK, the two ways the property lets a protocol become idle again.")
 ASSUMPTIONS = ["the state object in self.state is always one of the slot objects (checked: only self.<SLOT> is ever assigned)"]
 
 API_OPS = ["connect", "disconnect", "publish", "subscribe", "unsubscribe"]
@@ -363,6 +364,9 @@ def check(ctx):
             if tr.kind == "LOSS":
                 hazards.append((f, "prefired/%s" % rg, "errback() of a request taken from %s without testing .called: %s stores an already "
                                 "fired Deferred there (%s), AlreadyCalledError" % (rg, tr0.label(), where(st0))))
+        for tr, e, loc, tr2, e2 in hd.cancelled_kept():
+            hazards.append((e2, "cancelled-handle-kept/%s" % ".".join(loc), "%s cancels the handle in %s and leaves it stored (%s); connectionLost "
+                            "cancels it again (AlreadyCancelled)" % (tr.label(), ".".join(loc), where(e))))
         seen_kept = set()
         for tr, what, ok, ev in hd.loss_obligations():
             # a keepalive handle that the loss stops/cancels but leaves stored: the next loss of this protocol object finds it
@@ -384,6 +388,26 @@ def check(ctx):
             ctx.ob("M-LOSS-IDLE", "%s connectionLost reaches the state reset (%s)" % (cls_short(cls.qual), what), idle_before, where=where(e),
                    function=e.func, construct="%s/connectionLost/%s" % (cls.qual, what),
                    msg="%s: the exception leaves connectionLost before self.state = IDLE, the protocol stays CONNECTED on a dead transport" % why)
+    # the protocol is idle again only "after a loss or a refused CONNACK": any other context that declares it idle opens connect()
+    # on a connection that is still there (and shuts the operations its real state allows)
+    for cls in a.protos:
+        cat = catalogue(a, cls)
+        seen_idle = set()
+        n_idle = 0
+        for tr in contexts(cat):
+            for e in tr.events:
+                if e.kind == "STATE" and e.a["slot"] == "IDLE":
+                    n_idle += 1
+                    ok = tr.kind == "LOSS" or (tr.kind == "NET" and tr.name == "CONNACK")
+                    key = (e.func, tr.kind, tr.name)
+                    if key in seen_idle:
+                        continue
+                    seen_idle.add(key)
+                    ctx.ob("M-IDLE", "%s the state returns to IDLE only at a loss or a refused CONNACK (%s)" % (cls_short(cls.qual), tr.label()), ok,
+                           where=where(e), function=e.func, construct="%s/idle-assigned/%s" % (e.func, tr.label()),
+                           msg="the state is set to IDLE in context %s: the connection has not been reported lost, yet connect() is now honoured "
+                               "(a CONNECT written on a connection that is still up or closing) and the operations of the real state fail" % tr.label())
+        ctx.floor("IDLE assignments of %s" % cls_short(cls.qual), n_idle, 2)
     ctx.count("matrix_cells", cells)
     ctx.count("protocol_classes", len(a.protos))
     ctx.count("state_classes", len({c.qual for cls in a.protos for c in a.engine(cls).state_slots.values()}))
